@@ -66,7 +66,27 @@ def random_match_case(rng, exact=True, scope="in"):
         xref.append(xs[i] + d)
     if any(b <= a for a, b in zip(xref, xref[1:])):
         xref = [xs[i] for i in fpi]
-    yref = [Fraction(rng.randint(-20, 20), 4) for _ in fpi]
+    if mode != "search" and rng.random() < 0.6:
+        # explicitly designated fixed points: the reference may have more points than there are fixed points (before the
+        # first, beyond the last, inside a window); they sit on / next to samples that are far from every fixed sample
+        extra = []
+        if fpi[0] >= 2 and rng.random() < 0.5:
+            extra.append(xs[0] - Fraction(rng.choice([0, 1]), 4))
+        if fpi[-1] <= n - 3 and rng.random() < 0.7:
+            extra.append(xs[-1] + Fraction(rng.choice([0, 1, 8]), 4))
+        elif rng.random() < 0.5:
+            extra.append(xs[-1] + 5 + Fraction(rng.choice([0, 1]), 4))
+        for a_, b_ in zip(fpi, fpi[1:]):
+            if b_ - a_ >= 4 and rng.random() < 0.4:
+                extra.append(xs[(a_ + b_) // 2] + (xs[(a_ + b_) // 2 + 1] - xs[(a_ + b_) // 2]) * Fraction(1, 8))
+        cand = sorted(set(xref) | set(extra))
+        if all(b_ > a_ for a_, b_ in zip(cand, cand[1:])):
+            # keep only if every fixed sample is still strictly closest to its own reference point
+            def closest(v):
+                return min(cand, key=lambda r: (abs(r - v), r))
+            if all(closest(xs[i]) == r for i, r in zip(fpi, xref)):
+                xref = cand
+    yref = [Fraction(rng.randint(-20, 20), 4) for _ in xref]
     c = {"fn": "match", "x": [R(v) for v in xs], "y": [R(v) for v in ys], "xref": [R(v) for v in xref], "yref": [R(v) for v in yref],
          "mode": mode, "strategy": strategy, "trule": rng.choice(RULES), "rrule": rng.choice(RULES),
          "given": [] if mode == "search" else [R(xs[i]) for i in fpi] if mode == "positions" else list(fpi),
